@@ -10,7 +10,14 @@ for d in sorted(glob.glob("/verif/seeded/*/")):
     meta = json.load(open(d + "meta.json"))
     prop = meta["property"]
     assert subprocess.run("git -C /repo diff --quiet", shell=True).returncode == 0, "/repo not clean"
-    assert subprocess.run("git -C /repo apply " + d + "patch.diff", shell=True).returncode == 0, sid
+    if meta.get("neutralised"):
+        rows.append((sid, prop, "neutralised", meta["neutralised"][:90], meta.get("summary", "")[:110]))
+        print(rows[-1][:4], flush=True)
+        continue
+    if subprocess.run("git -C /repo apply " + d + "patch.diff", shell=True).returncode != 0:
+        rows.append((sid, prop, "does-not-apply", "", meta.get("summary", "")[:110]))
+        print(rows[-1][:4], flush=True)
+        continue
     try:
         p = subprocess.run(["./check", prop], cwd="/verif", env=dict(os.environ, VERIF_EVIDENCE_DIR="/verif/.work/evidence_mut"), stdout=subprocess.PIPE, stderr=subprocess.STDOUT, text=True)
     finally:
